@@ -17,10 +17,21 @@ type OptCase struct {
 	NoCost   bool   `json:"nocost"` // no cost function at all
 	Entry    string `json:"entry"`  // optimal | minimize | optimal-chan
 	CP       bool   `json:"cp"`
+	// Decoy: another cost function is installed first (by SetCostFunc, or by the min: line of the OPB text) and then
+	// replaced by the real one with SetCostFunc: the last call is the one that counts.
+	Decoy     bool  `json:"decoy,omitempty"`
+	DecoyLits []int `json:"decoylits,omitempty"`
+	DecoyWs   []int `json:"decoyws,omitempty"`
 }
 
 func (c *OptCase) norm() {
 	c.P.norm()
+	if len(c.DecoyWs) > len(c.DecoyLits) {
+		c.DecoyWs = c.DecoyWs[:len(c.DecoyLits)]
+	}
+	for len(c.DecoyWs) < len(c.DecoyLits) {
+		c.DecoyWs = append(c.DecoyWs, 1)
+	}
 	if len(c.CostWs) > len(c.CostLits) {
 		c.CostWs = c.CostWs[:len(c.CostLits)]
 	}
@@ -69,7 +80,13 @@ func opbTerm(w, l int) string {
 func opbText(p *Prob, c *OptCase) string {
 	var b strings.Builder
 	fmt.Fprintf(&b, "* #variable= %d #constraint= %d\n", p.NbVars(), len(p.Cons))
-	if c != nil && !c.NoCost {
+	if c != nil && c.Decoy {
+		b.WriteString("min:")
+		for i, l := range c.DecoyLits {
+			b.WriteString(" " + opbTerm(c.DecoyWs[i], l))
+		}
+		b.WriteString(" ;\n")
+	} else if c != nil && !c.NoCost {
 		b.WriteString("min:")
 		for i, l := range c.CostLits {
 			b.WriteString(" " + opbTerm(c.CostWs[i], l))
@@ -146,11 +163,14 @@ func genC03(r *rand.Rand, idx int, tier string) *OptCase {
 	if tier == "thorough" {
 		nmax = 13
 	}
-	fams := []string{"cnf", "card", "pb", "pb", "cnf3", "longclauses", "unitrich"}
+	fams := []string{"cnf", "card", "pb", "pb", "cnf3", "longclauses", "unitrich", "cover"}
 	fam := fams[r.Intn(len(fams))]
 	n := 2 + r.Intn(nmax-1)
 	if fam == "cnf3" {
 		n = 3 + r.Intn(nmax-2)
+	}
+	if fam == "cover" {
+		return genCover(r, 3+r.Intn(nmax-2))
 	}
 	p := genProblem(r, fam, n)
 	if p.Front == "dimacs" || p.Front == "slicenb" {
@@ -186,16 +206,78 @@ func genC03(r *rand.Rand, idx int, tier string) *OptCase {
 			p.Cons[0] = last
 		}
 	}
+	if !c.NoCost && r.Intn(12) == 0 {
+		addDecoy(r, nv, c)
+	}
 	// OPB text route (with min: line), sometimes with negative cost coefficients
 	if (fam == "pb" || fam == "card") && r.Intn(3) == 0 {
 		p.Front = "opb"
 		p.Cons = toOPBCons(p.Cons)
 		p.Class += "-opb"
-		c.NilWs = false
-		if !c.NoCost && r.Intn(4) == 0 {
+		if !c.Decoy {
+			c.NilWs = false
+		}
+		if !c.NoCost && !c.Decoy && r.Intn(4) == 0 {
 			genCost(r, max(1, p.MaxVarAll()), c, true)
 		}
 		p.Text = "" // rendered in run (needs the cost function)
+	}
+	return c
+}
+
+// addDecoy: a first cost function, over other literals and weights, that the real one replaces.
+func addDecoy(r *rand.Rand, n int, c *OptCase) {
+	c.Decoy = true
+	k := 1 + r.Intn(min(n, 5))
+	c.DecoyLits = distinctLits(r, n, k)
+	c.DecoyWs = make([]int, k)
+	for i := range c.DecoyWs {
+		c.DecoyWs[i] = 1 + r.Intn(9)
+	}
+}
+
+// genCover: weighted covering problems: clauses of 2..3 positive literals (each must be covered), sometimes an at-most
+// constraint, a cost over every variable with weights in 2..5 (no weight 1: consecutive optima differ by less than the
+// smallest weight) or 1..4.  Many models, many distinct costs, and the first model found is rarely the best.
+func genCover(r *rand.Rand, n int) *OptCase {
+	var cons []Con
+	m := n + r.Intn(n+1)
+	for i := 0; i < m; i++ {
+		k := 2 + r.Intn(2)
+		lits := distinctLits(r, n, min(n, k))
+		for j := range lits {
+			if lits[j] < 0 && r.Intn(8) != 0 {
+				lits[j] = -lits[j]
+			}
+		}
+		cons = append(cons, Con{Kind: "clause", Lits: lits})
+	}
+	if r.Intn(3) == 0 {
+		k := min(n, 3+r.Intn(3))
+		cons = append(cons, Con{Kind: "atmost", Lits: distinctLits(r, n, k), K: 1 + r.Intn(k-1)})
+	}
+	p := &Prob{Front: "slice", Cons: cons, Class: "cover"}
+	if len(cons) > m || r.Intn(3) == 0 {
+		p.Front = "pb"
+	}
+	c := &OptCase{P: p, Entry: []string{"optimal", "minimize", "minimize", "optimal-chan"}[r.Intn(4)]}
+	nv := p.NbVars()
+	lo := 2
+	if r.Intn(3) == 0 {
+		lo = 1
+	}
+	for v := 1; v <= nv; v++ {
+		if r.Intn(6) == 0 {
+			continue
+		}
+		c.CostLits = append(c.CostLits, v)
+		c.CostWs = append(c.CostWs, lo+r.Intn(4))
+	}
+	if len(c.CostLits) == 0 {
+		c.CostLits, c.CostWs = []int{1}, []int{2}
+	}
+	if r.Intn(10) == 0 {
+		addDecoy(r, nv, c)
 	}
 	return c
 }
@@ -226,6 +308,13 @@ func runC03(e *emitter, idx int, c *OptCase) {
 				n = abs(l)
 			}
 		}
+		if c.Decoy {
+			for _, l := range c.DecoyLits {
+				if abs(l) > n {
+					n = abs(l)
+				}
+			}
+		}
 		p.Text = opbText(p, c)
 	}
 	psx := p.Sx()
@@ -240,7 +329,14 @@ func runC03(e *emitter, idx int, c *OptCase) {
 		if err != nil {
 			panic(fmt.Sprintf("parse error: %v", err))
 		}
-		if p.Front != "opb" && !c.NoCost {
+		if p.Front != "opb" && c.Decoy {
+			dl := make([]solver.Lit, len(c.DecoyLits))
+			for i, l := range c.DecoyLits {
+				dl[i] = solver.IntToLit(int32(l))
+			}
+			pb.SetCostFunc(dl, cp(c.DecoyWs))
+		}
+		if (p.Front != "opb" || c.Decoy) && !c.NoCost {
 			lits := make([]solver.Lit, len(c.CostLits))
 			for i, l := range c.CostLits {
 				lits[i] = solver.IntToLit(int32(l))
